@@ -59,7 +59,7 @@ func (p *pastePlan) hook(label, kind string, depth int) string {
 	if depth+1 > p.depthMax {
 		p.depthMax = depth + 1
 	}
-	return "x"
+	return "macro"
 }
 
 func parentOf(label string) string {
@@ -120,6 +120,10 @@ func c07EvalInline(t *fw.T, c *fw.Case) {
 		}
 		t.Violation("catalog-differs:"+cls, fmt.Sprintf("pasting differs from writing the body in place: %s\n--- macro form\n%s\n--- in-place form\n%s", where, withMacros.Text, inPlace.Text))
 		return
+	}
+	t.Count("twins_" + om.Outcome)
+	if om.Outcome == run.Rejected {
+		t.Sample("twins-both-rejected", map[string]interface{}{"msg": oi.Msg, "in_place": inPlace.Text})
 	}
 	t.Distinct(fmt.Sprintf("%s| depth%d %s", sites, plan.depthMax, om.Outcome))
 	t.Sample("twins", map[string]interface{}{"macro_form": withMacros.Text, "outcome": om.Outcome, "paste_depth_max": om.PasteDepthMax})
